@@ -57,8 +57,13 @@ where
 
         let mut steal = 0;
         if !self.buf.is_empty() {
-            steal = size - self.buf.len();
+            // A short read may not even complete the sample we're in the
+            // middle of.
+            steal = std::cmp::min(size - self.buf.len(), n);
             self.buf.extend(&buffer[0..steal]);
+            if self.buf.len() < size {
+                return Ok(BlockRet::Again);
+            }
             v.push(T::parse(&self.buf)?);
             self.buf.clear();
         }
